@@ -56,6 +56,23 @@ JudgePost(P, Q, grow, T, D, set, r) ==
     \o (IF Len(T) > 0 /\ Q.rooting # r THEN V("C06.RootingKept", Shape(P) \o "->" \o Shape(Q)) ELSE None)
     \o (IF Len(T) > 0 /\ Q.set # set THEN V("C06.SettingsKept", "settings") ELSE None)
 
+\* per-split summaries the summariser wrote on a tree (length_mean / length_median / length_range on the edges, age_* on
+\* the nodes) against the bag of values of that split: logged per node as <<present, mean, median, lo, hi>>, values * LScale
+SumVerdict(g, sums, bags, x) ==            \* "ok", or the first statistic of node x that is off
+    LET s == SplitOf(g, x) IN
+    IF s \notin DOMAIN bags THEN "ok"
+    ELSE LET b == bags[s]  n == BagN(b)  sq == SortedOfBag(b)  v == sums[x] IN
+         IF n = 0 THEN "ok"
+         ELSE IF ~v[1] THEN "missing"
+         ELSE IF ~(v[2][3] /\ v[2][2] > 0) \/ v[2][1] * n # BagSum(b) * v[2][2] THEN "mean"
+         ELSE IF ~(v[3][3] /\ v[3][2] > 0) \/ v[3][1] * 2 # MedianTwice(b) * v[3][2] THEN "median"
+         ELSE IF v[4] # sq[1] \/ v[5] # sq[n] THEN "range" ELSE "ok"
+SummaryClass(g, sums, bags, what) ==
+    LET cls == {SumVerdict(g, sums, bags, x) : x \in Nodes(g)} \ {"ok"} IN
+    IF cls = {} THEN <<>>
+    ELSE V("C06.SameLengthAndAgeSummaries",
+           what \o "_" \o (IF "missing" \in cls THEN "missing" ELSE IF "mean" \in cls THEN "mean" ELSE IF "median" \in cls THEN "median" ELSE "range"))
+
 \* queries on a non-empty array: consensus, supports, credibility scores, maximum credibility tree
 RatOk(v) == v[3] /\ v[2] > 0
 \* T: ids of the trees the array holds, entry by entry; P: its projection; e: record with cons, scores, mcct, topo;
@@ -85,7 +102,8 @@ JudgeQueries(T, D, set, r, P, e, ref) ==
                          THEN V("C06.SameConsensus", "differs-from-the-array-filled-one-tree-at-a-time") ELSE None)
                    \o (IF c.g.rooted # (IF r = 1 THEN 1 ELSE 0) THEN V("C06.SameConsensus", "rooting-of-consensus") ELSE None)
                    \o (IF \E x \in Nodes(c.g) : ~RatOk(c.sup[x]) \/ c.sup[x][1] * d.sumW # CountOf(d, SplitOf(c.g, x)) * c.sup[x][2]
-                         THEN V("C06.SameSupports", "support-on-consensus") ELSE None)))
+                         THEN V("C06.SameSupports", "support-on-consensus") ELSE None)
+                   \o SummaryClass(c.g, c.esum, d.lens, "length") \o SummaryClass(c.g, c.asum, d.ages, "age")))
        \* threshold 1/4: every majority split, nothing below a quarter; which of the incompatible candidates are kept
        \* (ties!) must not depend on the route: same as the reference array when the whole sample is here
        \o (IF lo.raised # "" THEN None
